@@ -3,7 +3,7 @@
    followed by Print Assumptions.  [collect] is the model of collect_cython written as
    compiled.pyx:102-154 writes it; [UB] is an unchecked read outside the object. *)
 From Coq Require Import List ZArith Bool NArith.
-From Orso Require Import Model.C10 Proofs.C10 Proofs.C10_Frame Proofs.C10_Session.
+From Orso Require Import Model.C10 Proofs.C10 Proofs.C10_Frame Proofs.C10_Session Proofs.C10_PyDef.
 Import ListNotations.
 
 (* Rectangular tuple rows (every row as wide as the first), any index vector, any limit:
@@ -291,6 +291,69 @@ Example C10_nonvacuous_session :
   = [SNone; SNone; SNone; SRow [8; 7]%Z; SRow [11; 10; 12]%Z; SFrameOut FNone;
      SFrameOut (FCols (Ok [[1; 0]; [2; 7]]%Z))].
 Proof. reflexivity. Qed.
+
+(* ---- the plain-Python definition orso.row.extract_columns itself (round 4) ----
+   [extract_columns_py] is row.py:49-68 as written: per-position output lists filled row by row. *)
+
+(* Tuple rows of any widths, any integer requests (repeats, negatives): the function is the column-major
+   definition - one list per REQUESTED column, list i = [rows[j][cols[i]] for every j] with Python's
+   indexing (py_index: wrap-around of -len..-1) - and IndexError exactly where some rows[j][cols[i]] does not exist. *)
+Theorem C10_pydef_tuples :
+  forall (A K : Type) (keq : K -> K -> bool) (rows : list (list A)) (cols : list Z),
+  extract_columns_py keq (map PTuple rows) (map int_col cols) =
+  match mapO (fun c => mapO (fun l => py_index l c) rows) cols with
+  | Some res => Ok res
+  | None => Raise IndexError
+  end.
+Proof.
+  intros A K keq rows cols. rewrite (extract_columns_tuples A K keq rows cols).
+  unfold pydef_def. destruct (mapO _ cols); reflexivity.
+Qed.
+Print Assumptions C10_pydef_tuples.
+
+(* ... so whenever it returns there is one list per requested column, in request order. *)
+Theorem C10_pydef_one_list_per_request :
+  forall (A K : Type) (keq : K -> K -> bool) (rows : list (list A)) (cols : list Z) (res : list (list A)),
+  extract_columns_py keq (map PTuple rows) (map int_col cols) = Ok res ->
+  length res = length cols /\
+  forall i c, nth_error cols i = Some c ->
+    exists col, nth_error res i = Some col /\ mapO (fun l => py_index l c) rows = Some col.
+Proof. exact extract_columns_length. Qed.
+Print Assumptions C10_pydef_one_list_per_request.
+
+(* Python's subscription on a tuple: a non-negative position is the definition's rows[j][c]; a negative
+   one in -len..-1 wraps around (this is where the plain-Python function and the compiled collector,
+   which raises, differ by design). *)
+Theorem C10_pydef_index :
+  forall (A : Type) (l : list A) (c : Z),
+  ((0 <= c)%Z -> py_index l c = get_def l c) /\
+  ((- Z.of_nat (length l) <= c < 0)%Z -> py_index l c = py_index l (c + Z.of_nat (length l))).
+Proof. intros A l c. split; [exact (py_index_nonneg A l c)|exact (py_index_negative A l c)]. Qed.
+Print Assumptions C10_pydef_index.
+
+(* "The compiled helpers return exactly what their plain-Python definitions return": rectangular tuple
+   rows, every index in 0..width-1 (repeats allowed), all rows: collect_cython's model and
+   extract_columns' model return the same columns, one per requested index. *)
+Theorem C10_compiled_equals_pydef :
+  forall (A K : Type) (keq : K -> K -> bool) (w : nat) (rows : list (list A)) (cols : list Z),
+  rectangular A w rows -> rows <> [] -> (forall c, In c cols -> (0 <= c < Z.of_nat w)%Z) ->
+  exists res, collect (map RTuple rows) cols (-1)%Z = Ok res /\
+              extract_columns_py keq (map PTuple rows) (map int_col cols) = Ok res /\
+              length res = length cols.
+Proof. exact compiled_equals_pydef. Qed.
+Print Assumptions C10_compiled_equals_pydef.
+
+(* Non-vacuity: a repeated column gives two lists; 1 and True (the same position) give two lists; -1 wraps;
+   dictionary rows take equal keys to the same value and raise KeyError for an absent one. *)
+Example C10_nonvacuous_pydef :
+  extract_columns_py Z.eqb (map PTuple [[1; 2; 3]; [4; 5; 6]]%Z) (map int_col [0; 0; 2; (-1)]%Z)
+    = Ok [[1; 4]; [1; 4]; [3; 6]; [3; 6]]%Z /\
+  extract_columns_py Z.eqb (map PTuple [[1; 2]; [3]]%Z) (map int_col [0; 1]%Z) = Raise IndexError /\
+  extract_columns_py Z.eqb [PDict [(7, 70); (8, 80)]%Z; PDict [(8, 81); (7, 71)]%Z]
+    [PCol None (Some 7%Z); PCol (Some 1%Z) (Some 8%Z); PCol None (Some 7%Z)] = Ok [[70; 71]; [80; 81]; [70; 71]]%Z /\
+  extract_columns_py Z.eqb [PDict [(7, 70)]%Z] [PCol None (Some 9%Z)] = Raise KeyError /\
+  extract_columns_py Z.eqb [PTuple [1]%Z] [PCol None (Some 9%Z)] = Raise TypeError.
+Proof. repeat split; reflexivity. Qed.
 
 (* extract_dict_columns, all inputs: one output per requested field, in order; each is the value the
    dictionary lookup finds, else None. *)
